@@ -300,6 +300,7 @@ class VolumeMesh(Mesh):
             self._adjF2C = dict([(i,[]) for i in self.mesh.id_faces ])
 
             for iC,C in enumerate(self.mesh.cells):
+                C = tuple(C) # cells may be stored as lists, tuples or numpy rows
                 if len(C)==4: # tetrahedra : every subset of 3 elements is a face
                     for i in range(4):
                         # By convention, ith adjacent face does not contain vertex i of the tet
@@ -435,8 +436,9 @@ class VolumeMesh(Mesh):
 
         def in_cell_face_index(self,C,F):
             face_set = set(self.mesh.faces[F])
-            for i,_ in enumerate(self.mesh.cells[C]):
-                cell_set_i = set(self.mesh.cells[C][:i] + self.mesh.cells[C][(i+1):])
+            cell = tuple(self.mesh.cells[C]) # cells may be stored as lists, tuples or numpy rows
+            for i,_ in enumerate(cell):
+                cell_set_i = set(cell[:i] + cell[(i+1):])
                 if face_set == cell_set_i:
                     return i
             return None
